@@ -414,18 +414,33 @@ def r6_named_accessors(ctx):
 
         def oracle(interp, env, f, args, t, bb, path):
             k = f.get("key", "")
-            if k.startswith(R) and f.get("name") in ("borrow", "borrow_mut", "try_borrow", "try_borrow_mut", "get_value", "try_get_value", "borrow_value", "borrow_value_mut", "try_borrow_value", "try_borrow_value_mut"):
-                asked.append((f.get("name"), (f.get("gargs") or [None])[0]))
-                v = Sym("registry-answer")
-                return ok(v) if f.get("name").startswith("try_") else v
+            nm_ = f.get("name")
+            if k.startswith(R) and nm_ in ("borrow", "borrow_mut", "try_borrow", "try_borrow_mut", "get_value", "try_get_value", "borrow_value", "borrow_value_mut", "try_borrow_value", "try_borrow_value_mut"):
+                asked.append((nm_, (f.get("gargs") or [None])[0]))
+                # the state object `T(value, ..)`: a guard on it derefs / projects to the value
+                V_ = Sym("the-value")
+                S_ = Sym("the-state", {0: V_, "deref": V_})
+                if nm_ in ("borrow", "borrow_mut", "try_borrow", "try_borrow_mut"):
+                    v = Sym("guard-of-the-state", {"deref": S_, "*": S_})
+                elif nm_ in ("get_value", "try_get_value"):
+                    v = V_
+                else:
+                    v = Sym("guard-of-the-value", {"deref": V_, "*": V_})
+                return ok(v) if nm_.startswith("try_") else v
+            if k in ("core::clone::Clone::clone",) and args:
+                from collmodel import load as _ld
+                return _ld(interp, env, args[0])
             return TOP
-        it = _inst(Interp(fn.body, chain(oracle, coll_oracle, std_oracle), [Sym("state")], facts=F, inline=lambda k: k.startswith("<mahf::state::State as core::ops::deref"), max_visits=6))
+        it = _inst(Interp(fn.body, chain(oracle, coll_oracle, std_oracle), [Sym("state")], facts=F, inline=lambda k: k.startswith("<mahf::state::State as core::ops::deref") or k.startswith("<" + ty.split("<")[0] + " as core::ops::deref"), max_visits=6))
         ps = it.run()
         n += 1
-        fam = {"borrow": ("borrow", "try_borrow"), "borrow_mut": ("borrow_mut", "try_borrow_mut"), "get_value": ("get_value", "try_get_value", "borrow_value", "try_borrow_value")}[acc]
-        good = len(ps) == 1 and ps[0].end == "return" and ps[0].ret == Sym("registry-answer") and len(asked) == 1 and asked[0][0] in fam and asked[0][1] == ty
-        ctx.check(good, "C01.R6", fn.key, "is-" + acc, "State::%s() asks the registry for %s and returns %s; expected exactly %s::<%s>() and its answer"
-                  % (name, asked, [str(p.ret) if p.end == "return" else p.end for p in ps], acc, ty), loc=fn.loc())
+        # the shared / exclusive family of the accessor; a by-value accessor may also copy the value out of a guard on the whole state
+        fam = {"borrow": ("borrow", "try_borrow"), "borrow_mut": ("borrow_mut", "try_borrow_mut"),
+               "get_value": ("get_value", "try_get_value", "borrow_value", "try_borrow_value", "borrow", "try_borrow")}[acc]
+        want_ret = Sym("the-value") if acc == "get_value" else Sym("guard-of-the-state")
+        good = len(ps) == 1 and ps[0].end == "return" and ps[0].ret == want_ret and len(asked) == 1 and asked[0][0] in fam and asked[0][1] == ty
+        ctx.check(good, "C01.R6", fn.key, "is-" + acc, "State::%s() asks the registry for %s and returns %s; expected exactly one %s::<%s>() (or a sibling of its family) and %s"
+                  % (name, asked, [str(p.ret) if p.end == "return" else p.end for p in ps], acc, ty, "the value it holds" if acc == "get_value" else "its answer"), loc=fn.loc())
     # best_individual / best_objective_value
     BEST = "mahf::state::common::BestIndividual<P>"
     IND = "mahf::problems::individual::Individual"
